@@ -111,10 +111,35 @@ def op_hist_step(args):
 
 
 # ---------------------------------------------------------------------- C12
+def _shift_lines(code):
+    """the same code with every line moved down by one through the line table alone
+    (co_firstlineno, which code equality does compare, stays); None if not expressible"""
+    if sys.version_info >= (3, 10):
+        t = code.co_linetable
+        if len(t) < 2 or t[1] in (0x80, 0x7F):
+            return None
+        return {"co_linetable": bytes([t[0], (t[1] + 1) & 0xFF]) + t[2:]}
+    return {"co_lnotab": b"\x00\x01" + code.co_lnotab}
+
+
 def _lookalike(code, tag):
+    """a code object that compares equal to `code` (code.__eq__ ignores file name, stack size and
+    line table) but is not the same.  tag 1: other file name; 2: other stack size; 3: both;
+    4: only the line table differs (same file, same stack size)"""
     from ops_const import code_replace
     consts = tuple(_lookalike(k, tag) if isinstance(k, CodeType) else k for k in code.co_consts)
-    return code_replace(code, co_consts=consts, co_filename="%s.look%d" % (code.co_filename, tag), co_stacksize=code.co_stacksize + tag)
+    kw = {"co_consts": consts}
+    if tag in (1, 3):
+        kw["co_filename"] = "%s.look%d" % (code.co_filename, tag)
+    if tag in (2, 3):
+        kw["co_stacksize"] = code.co_stacksize + tag
+    if tag == 4:
+        sh = _shift_lines(code)
+        if sh is None:
+            kw["co_stacksize"] = code.co_stacksize + 1
+        else:
+            kw.update(sh)
+    return code_replace(code, **kw)
 
 
 def _first(s, key, value, v, eq=None):
@@ -268,7 +293,7 @@ def _c12_step(s, rule, arg, v):
             d = [x for x in d if x[1] not in base]
             if d:
                 v.violate("shared_state", "from_code_lookalike:" + d[0][1],
-                          "from_code of a look-alike code object (other file name / stack size) does not describe it: %s %s" % (d[0][0], d[0][2]))
+                          "from_code of a look-alike code object (other file name / stack size / line table) does not describe it: %s %s" % (d[0][0], d[0][2]))
             again = L.CodeData.from_code(s.code)
             if again != s.d:
                 v.violate("not_repeatable", "from_code_after_lookalike", "from_code(c) changed after decoding a look-alike of c")
@@ -276,6 +301,7 @@ def _c12_step(s, rule, arg, v):
             if d2:
                 v.violate("shared_state", "from_code_after_lookalike:" + d2[0][1], "%s %s" % (d2[0][0], d2[0][2]))
             v.features["lookalike_decodes"] += 1
+            v.features["lookalike_tag%d" % (arg or {}).get("tag", 1)] += 1
             v.features["repeated_call"] += 1
         elif rule == "from_json_then_mutate":
             # mutate the argument AFTER loading: the loaded value must not change
